@@ -49,7 +49,83 @@ impl Round {
 
 pub struct RoundResult { pub fails: Vec<(String, String)>, pub received: usize, pub created: usize, pub hang: bool }
 
+/// pipeline.rs pair: one `SampleQueueSender` shared by reference between the producer threads
+fn run_round_pipe(r: &Round) -> RoundResult {
+    let sig = |w: &str| format!("stress-pipe:{}:{}", r.nprod, w);
+    let mut fails: Vec<(String, String)> = vec![];
+    let reg = Registry::new(r.nprod * (r.ops * 4 + 8) + 16);
+    let (sender, mut receiver) = rustrtc::media::pipeline::verif_sample_queue_channel(r.cap);
+    let queue = receiver.verif_queue();
+    let sender = Arc::new(sender);
+    let go = Arc::new(AtomicBool::new(false));
+    let mut rng = Rng::new(r.seed);
+    let mut joins = vec![];
+    for i in 0..r.nprod {
+        let (reg, go, ops, h) = (reg.clone(), go.clone(), r.ops, sender.clone());
+        let mut rg = rng.fork();
+        joins.push(std::thread::spawn(move || {
+            while !go.load(Ordering::Acquire) { std::hint::spin_loop(); }
+            let mut val = 1u64;
+            let mut errs = 0u64;
+            for _ in 0..ops {
+                val += 1;
+                if rg.below(3) == 0 { let _ = h.try_send(make_sample(&reg, i as u64, val - 1)); }
+                else if h.send(make_sample(&reg, i as u64, val - 1)).is_err() { errs += 1; }
+                match rg.below(16) { 0 => std::thread::yield_now(), 1 => { for _ in 0..rg.below(200) { std::hint::spin_loop(); } } _ => {} }
+            }
+            drop(h);
+            errs
+        }));
+    }
+    drop(sender);
+    let consumer = {
+        let go = go.clone();
+        std::thread::spawn(move || {
+            while !go.load(Ordering::Acquire) { std::hint::spin_loop(); }
+            let deadline = Instant::now() + Duration::from_secs(20);
+            let mut got: Vec<Result<(u64, u64), String>> = vec![];
+            loop {
+                match block_on_deadline(receiver.recv(), deadline) {
+                    None => return (got, false, true),
+                    Some(Some(s)) => got.push(decode(&s)),
+                    Some(None) => return (got, true, false),
+                }
+            }
+        })
+    };
+    go.store(true, Ordering::Release);
+    let mut errs = 0;
+    for j in joins { errs += j.join().unwrap_or(1); }
+    let (got, eos, hang) = consumer.join().unwrap_or((vec![], false, true));
+    if errs > 0 { fails.push((sig("send-error-on-live-receiver"), format!("{errs} sends failed although the receiver was alive"))); }
+    if hang { fails.push((sig("consumer-hang"), "recv() did not return 20 s after the sender was dropped".into())); }
+    let mut last: std::collections::BTreeMap<u64, u64> = Default::default();
+    let mut seen: std::collections::BTreeSet<(u64, u64)> = Default::default();
+    for g in &got {
+        match g {
+            Err(e) => fails.push((sig("corrupt-sample"), e.clone())),
+            Ok((p, v)) => {
+                if !seen.insert((*p, *v)) { fails.push((sig("duplicate-sample"), format!("p{p} v{v} received twice"))); }
+                if let Some(l) = last.get(p) { if *v <= *l { fails.push((sig("reordered-sample"), format!("p{p}: v{v} after v{l}"))); } }
+                last.insert(*p, *v);
+            }
+        }
+    }
+    let queued = { let (h, t) = queue.verif_indices(); t.wrapping_sub(h) };
+    if eos && queued != 0 { fails.push((sig("eos-before-drained"), format!("{queued} sample(s) left in the queue at end-of-stream"))); }
+    let received = got.len();
+    drop(got);
+    if !hang {
+        match Arc::try_unwrap(queue) { Ok(q) => drop(q), Err(_) => fails.push((sig("teardown"), "queue still shared".into())) }
+        let (leaked, multi) = reg.balance();
+        if leaked > 0 { fails.push((sig("leaked-sample"), format!("{leaked} of {} payloads never dropped", reg.created()))); }
+        if multi > 0 { fails.push((sig("double-drop"), format!("{multi} of {} payloads dropped more than once", reg.created()))); }
+    }
+    RoundResult { fails, received, created: reg.created(), hang }
+}
+
 pub fn run_round(r: &Round) -> RoundResult {
+    if r.mode == 3 { return run_round_pipe(r); }
     let sig = |w: &str| format!("stress:{}:{}", r.nprod, w);
     let mut fails: Vec<(String, String)> = vec![];
     let reg = Registry::new(r.nprod * (r.ops * 4 + 8) + 16);
@@ -131,8 +207,9 @@ pub fn run_round(r: &Round) -> RoundResult {
             }
         }
     }
-    if eos && !r.stop && track.verif_queue().len() != 0 {
-        fails.push((sig("eos-before-drained"), format!("{} sample(s) left in the queue at end-of-stream", track.verif_queue().len())));
+    let queued = { let (h, t) = track.verif_queue().verif_indices(); t.wrapping_sub(h) };
+    if eos && !r.stop && queued != 0 {
+        fails.push((sig("eos-before-drained"), format!("{queued} sample(s) left in the queue at end-of-stream")));
     }
     let received = got.len();
     drop(got);
@@ -149,7 +226,7 @@ fn rounds(args: &Args, batch: u64, per_batch: usize) -> Vec<Round> {
     let mut rng = Rng::new(args.seed ^ 0xC20 ^ (batch << 32));
     (0..per_batch).map(|_| {
         let cap = match rng.below(4) { 0 => 1, 1 => rng.range(2, 4) as usize, 2 => rng.range(5, 16) as usize, _ => rng.range(17, 64) as usize };
-        Round { cap, nprod: rng.range(1, 4) as usize, mode: rng.below(3) as u8,
+        Round { cap, nprod: rng.range(1, 4) as usize, mode: rng.below(4) as u8,
                 ops: *rng.pick(&[20usize, 200, 1000, 3000]), stop: rng.chance(1, 6), seed: rng.next() }
     }).collect()
 }
@@ -182,7 +259,7 @@ pub fn parent(run: &mut Run, args: &Args) {
                 run.count("stress_rounds");
                 if let Some(r) = Round::parse(f[0]) {
                     run.count(&format!("stress_producers:{}", r.nprod));
-                    run.count(&format!("stress_mode:{}", ["cloned", "shared", "mixed"][r.mode as usize % 3]));
+                    run.count(&format!("stress_mode:{}", ["cloned", "shared", "mixed", "pipeline"][r.mode as usize % 4]));
                     run.count(&format!("stress_cap:{}", match r.cap { 1 => "1", 2..=4 => "2-4", 5..=16 => "5-16", _ => "17-64" }));
                     if r.stop { run.count("stress_with_stop"); }
                 }
